@@ -1112,6 +1112,11 @@ def generic_rules(prop, index, rep):
     with rep.section(rid7):
         no_ = override_guard_rule(index, rep, rid7, mods)
         rep.ob(rid7, "src/dendropy", "%d overrides of guarded parent methods examined" % no_, True, nontrivial=no_ > 0)
+    rid8 = "R%s.E" % prop[1:]
+    rep.rule(rid8, "documented errors are not swallowed: no pass-only handler in the property's modules can catch one of the library's own error classes raised inside the block it guards (directly or up to two resolved calls down)")
+    with rep.section(rid8):
+        ne_ = swallowed_error_rule(index, rep, rid8, mods)
+        rep.ob(rid8, "src/dendropy", "%d pass-only handlers examined" % ne_, True, nontrivial=ne_ > 0)
     rid2 = "R%s.V" % prop[1:]
     rep.rule(rid2, "right variable in nested loops: an inner loop over a collection derived from the outer item uses its own item")
     with rep.section(rid2):
@@ -1265,4 +1270,73 @@ def override_guard_rule(index, rep, rid, modules):
                 for st, exc in guards:
                     rep.check(exc in raised, rid, meth.qualname, "override drops the parent's refusal `%s`" % norm(st.test)[:50], fn_where(meth), "%s keeps the refusal %s of %s" % (meth.qualname, exc, parent.qualname),
                               "%s replaces %s without calling it and no longer raises %s where the parent does (`if %s: raise ...`): what the base class refuses - a taxon that is not in the matrix's namespace - this subclass silently accepts, so objects of the subclass break the invariant every other class keeps" % (meth.qualname, parent.qualname, exc, norm(st.test)[:60]))
+    return n
+
+
+def _exc_ancestors(index, cls_name, module):
+    """names of all ancestors (repository classes followed through, builtin names kept) of an exception class named cls_name"""
+    out = set()
+    work = [cls_name.split(".")[-1]]
+    while work:
+        nm = work.pop()
+        if nm in out:
+            continue
+        out.add(nm)
+        for k in index.classes.values():
+            if k.name == nm:
+                for b in k.node.bases:
+                    work.append(norm(b).split(".")[-1])
+    BUILTIN = {"KeyError": ["LookupError"], "IndexError": ["LookupError"], "LookupError": ["Exception"], "ValueError": ["Exception"], "TypeError": ["Exception"], "AttributeError": ["Exception"],
+               "NotImplementedError": ["RuntimeError"], "RuntimeError": ["Exception"], "StopIteration": ["Exception"], "AssertionError": ["Exception"], "IOError": ["OSError"], "OSError": ["Exception"], "Exception": ["BaseException"]}
+    grew = True
+    while grew:
+        grew = False
+        for nm in list(out):
+            for b in BUILTIN.get(nm, []):
+                if b not in out:
+                    out.add(b)
+                    grew = True
+    return out
+
+
+def swallowed_error_rule(index, rep, rid, modules):
+    """A handler that swallows (its body is pass / continue) must not be able to catch one of the library's own error
+    classes raised inside the block it guards - directly or in a callee: the documented refusal would vanish."""
+    n = 0
+    for m in modules:
+        for f in index.functions_in_module(m):
+            for t in walk_no_nested(f.node):
+                if not isinstance(t, ast.Try):
+                    continue
+                for h in t.handlers:
+                    if not all(isinstance(x, (ast.Pass, ast.Continue)) or (isinstance(x, ast.Expr) and isinstance(x.value, ast.Constant)) for x in h.body):
+                        continue
+                    if h.type is None:
+                        caught = {"BaseException"}
+                    else:
+                        caught = {norm(e).split(".")[-1] for e in (h.type.elts if isinstance(h.type, ast.Tuple) else [h.type])}
+                    n += 1
+                    raised = []
+                    seen = set()
+                    work = [(st, f, 0) for st in t.body]
+                    while work:
+                        node, ctx, d = work.pop()
+                        for x in (walk_no_nested(node) if not isinstance(node, ast.FunctionDef) else walk_no_nested(node, include_self=False)):
+                            if isinstance(x, ast.Raise) and x.exc is not None:
+                                nm = norm(x.exc.func) if isinstance(x.exc, ast.Call) else norm(x.exc)
+                                raised.append((nm.split(".")[-1], x, ctx))
+                            elif isinstance(x, ast.Call) and d < 2:
+                                grade, cands = index.resolve_call(x, ctx)
+                                if grade in ("self", "static"):
+                                    for k in cands:
+                                        if hasattr(k, "node") and isinstance(k.node, ast.FunctionDef) and k.qualname not in seen:
+                                            seen.add(k.qualname)
+                                            work.append((k.node, k, d + 1))
+                    for nm, r, ctx in raised:
+                        if not any(k.name == nm for k in index.classes.values()):
+                            continue        # not one of the library's own classes
+                        anc = _exc_ancestors(index, nm, None)
+                        hit = caught & anc
+                        rep.check(not hit, rid, f.qualname, "`except %s: pass` swallows %s" % ("/".join(sorted(caught)), nm), fn_where(f, h), "",
+                                  "%s guards a block with `except %s` whose body only passes, and that block can raise the library's own %s (in %s), which is a %s: the error a caller is documented to get - e.g. the refusal to delete the seed node - is silently dropped and the operation carries on as if nothing had happened (a filter that rejects every leaf then never terminates)" % (f.qualname, "/".join(sorted(caught)), nm, ctx.qualname, "/".join(sorted(hit))))
     return n
